@@ -896,11 +896,12 @@ def mon_c08(sc, res):
                         a = cget(params, b"access")
                         decl[cget(params, b"path")] = {"fetch": _names(cget(a, b"fetchGroups")) if a is not None else set(),
                                                         "set": _names(cget(a, b"setGroups")) if a is not None else set(),
-                                                        "call": _names(cget(a, b"callGroups")) if a is not None else set()}
+                                                        "call": _names(cget(a, b"callGroups")) if a is not None else set(), "owner": c}
                         if local_only and origin.get(c) not in D.LOCAL_ORIGINS and origin.get(c) != "unix":
                             fails.append("step %d: add from non-local origin %s accepted although only local adds are allowed" % (si, origin.get(c)))
-                    elif len(mine) != 1 and not is_id(rid):
-                        decl.pop(cget(params, b"path"), None)    # outcome unknown: stop judging this path
+                    elif len(mine) != 1:
+                        # outcome unknown (no id, or an id used twice in this step): stop judging this path
+                        decl.pop(cget(params, b"path"), None)
                         decl[cget(params, b"path")] = None
         # a connection that authenticates in this step changes its identity somewhere inside the step: what it is sent and what
         # is routed for it in this step is not attributed to either identity
@@ -963,6 +964,8 @@ def mon_c08(sc, res):
         for c in itr.closed[si]:
             dead.add(c)
             who.pop(c, None)
+            for p_ in [p_ for p_, dd_ in decl.items() if dd_ is not None and dd_.get("owner") == c]:
+                del decl[p_]           # the owner's elements go with it
     # passwords never appear in any output or log line
     if secrets:
         blob = b"\n".join(c.out for c in log.conns.values())
@@ -1194,8 +1197,21 @@ def mon_c14(sc, res):
                 c, r = cands.pop(j)
                 params = cget(r, b"params")
                 t = cget(params, b"timeout")
+                def _bad(tv):
+                    return tv is not None and (isinstance(tv, bool) or not isinstance(tv, float) or tv < 0.001 or tv * 1e9 >= 2.0 ** 64)
+                if _bad(t):
+                    # the attribution of a routed message to one of several requests of the step on the same element is not always
+                    # certain (requests without an id): if another request of the step on that element explains it, take that one
+                    alt = [k for k, (c2, r2) in enumerate(cands) if cget(cget(r2, b"params"), b"path") == path
+                           and cget(r2, b"method") == cget(r, b"method") and not _bad(cget(cget(r2, b"params"), b"timeout"))]
+                    if alt:
+                        c_alt, r_alt = cands.pop(alt[0])
+                        cands.append((c, r))
+                        c, r = c_alt, r_alt
+                        params = cget(r, b"params")
+                        t = cget(params, b"timeout")
                 if t is not None:
-                    if isinstance(t, bool) or not isinstance(t, float) or t < 0.001 or t * 1e9 >= 2.0 ** 64:
+                    if _bad(t):
                         # (a deadline whose nanoseconds do not fit into 64 bits cannot be armed: it must be refused)
                         fails.append("step %d: %s with invalid timeout %s was routed" % (si, cget(r, b"method").decode(), show(t)))
                     else:
